@@ -41,10 +41,10 @@ def gen_shape(rng, depth, allow_dict=True):
     if depth <= 1 or rng.random() < 0.25:
         return 0
     r = rng.random()
-    if r < 0.45:
+    if r < 0.42:
         n = rng.randint(1, 3)
         return [1, [gen_shape(rng, depth - 1, allow_dict) for _ in range(n)]]
-    if r < 0.75 or not allow_dict:
+    if r < 0.68 or not allow_dict:
         return [2, rng.randint(1, 3), gen_shape(rng, depth - 1, allow_dict)]
     return [3, gen_shape(rng, depth - 1, allow_dict)]
 
@@ -167,7 +167,7 @@ def gen_val(rng, s, p_present=0.7, top=True):
 def gen(rng, tier, prop):
     quick = tier == "quick"
     depth = rng.choice([1, 2, 2, 3, 3] if quick else [1, 2, 2, 3, 3, 3])
-    allow_dict = rng.random() < 0.45
+    allow_dict = rng.random() < 0.55
     shape = gen_shape(rng, depth, allow_dict)
     if depth > 1 and shape == 0:
         shape = [1, [0, 0]] if rng.random() < 0.6 else [2, 2, 0]
@@ -199,12 +199,16 @@ def gen(rng, tier, prop):
     case += cons
     # history
     t = start
+    dicty = has_dict(shape)
     erased = set()
+    pending = {}
     hot = rng.random()
     while t < end:
         if rng.random() < 0.3 + 0.5 * hot:
             for _ in range(rng.choice([1, 1, 1, 2, 2, 3, 4])):
                 r = rng.random()
+                if dicty and r >= 0.75:
+                    r = 0.9                    # shapes holding a dictionary: a quarter of the operations are key operations
                 line = None
                 if r < 0.5:
                     p = rand_path(rng, shape, "leaf")
@@ -240,11 +244,28 @@ def gen(rng, tier, prop):
                             cur = kids(cur)[i]
                     if line[2] == 4 and (t, tuple(pth), line[-1]) in erased:
                         hit = True
-                    if line[2] == 5:
+                    # finding F4: invalidating a dictionary (or a node enclosing it) as the FIRST operation on it
+                    # after a cycle that erased one of its keys skips a live child (the removed slot is
+                    # compacted while invalidate iterates by ordinal).  Kept out of the generated histories.
+                    for dpath, t1 in list(pending.items()):
+                        if t1 < t:
+                            if line[2] == 2 and tuple(pth) == dpath[:len(pth)]:
+                                hit = True
+                            elif tuple(pth[:len(dpath)]) == dpath:
+                                del pending[dpath]
+                    if line[2] == 5 and not hit:
                         erased.add((t, tuple(pth), line[-1]))
+                        pending[tuple(pth)] = t
                     if not hit:
                         case.append(line)
         t += rng.choice([1, 1, 1, 2, 3])
+    if rng.random() < 0.08:
+        # a child write followed by a whole-value write of an enclosing bundle in one cycle (finding F3)
+        p = rand_path(rng, shape, "leaf", dict_free_prefix=True)
+        if p and len(p) >= 2 and whole_ok(shape):
+            tt = rng.randint(start, end - 1)
+            case.append([3, tt, 1, len(p)] + p + [rng.randint(-9, 99)])
+            case.append([3, tt, 3, 0] + gen_val(rng, shape, 1.0))
     return case
 
 
